@@ -475,6 +475,39 @@ def state_checks(st, meta, table):
             checks.append(("dl-balance", "check_dl_balance %s %s" % (Qpairs(zl), Qpairs(dls)),
                            abs(q + qd) <= TOL * abs(q), {"abs_residual": abs(q + qd), "surface": nm, "surface_charge_mol": q, "diffuse_layer_charge_mol": qd,
                                                          "EDL_charge": e["charge"], "n_dl_species": len(e["dl"])}))
+        # ---- Donnan layer: every species enriched by its Boltzmann factor at ONE potential (reference: most abundant counter-ion)
+        if model.startswith("dl_donnan") and e["water"] and e["water"] > 0:
+            mol = {a["name"]: a["mol"] for a in st["aq"]}
+            enr = []
+            for n_, m_ in e["dl"]:
+                _, z = split_charge(n_)
+                if z == 0 or n_ not in mol or mol[n_] <= 0 or m_ <= 0:
+                    continue
+                enr.append((n_, z, Fraction(m_) / (Fraction(mol[n_]) * Fraction(e["water"])), m_))
+            sgn = 1 if q > 0 else -1
+            counter = [x for x in enr if (x[1] > 0) != (sgn > 0)]
+            if counter:
+                ref = max(counter, key=lambda x: x[3])
+                # the layer's potential has the sign of the surface charge: the counter-ions are enriched (E > 1) ...
+                # (not with -only_counter_ions: there the layer holds just enough counter-ions to balance, possibly fewer than bulk)
+                if not meta.get("oci"):
+                    checks.append(("donnan-counter-enriched", "negb (Qle_bool %s 1)" % Q(ref[2]), float(ref[2]) > 1.0,
+                                   {"species": ref[0], "enrichment": float(ref[2]), "surface": nm, "surface_charge_mol": q}))
+                else:
+                    # ... and with -only_counter_ions the co-ions are excluded from the layer
+                    for n_, z, E, m_ in enr:
+                        if (z > 0) == (sgn > 0):
+                            checks.append(("donnan-coion-excluded", "Qle_bool %s (1 # 1000000)" % Q(E), float(E) <= 1e-6,
+                                           {"species": n_, "enrichment": float(E), "surface": nm, "surface_charge_mol": q}))
+                for n_, z, E, m_ in enr:
+                    if n_ == ref[0]:
+                        continue
+                    if meta.get("oci") and (z > 0) == (sgn > 0):
+                        continue          # -only_counter_ions: co-ions are excluded from the layer
+                    pred = float(ref[2]) ** (float(z) / float(ref[1]))
+                    checks.append(("donnan-boltzmann", "check_donnan_ratio %s %s %s %s" % (Q(E), Q(ref[2]), Q(z), Q(ref[1])),
+                                   abs(float(E) - pred) <= TOL * pred, {"species": n_, "enrichment": float(E), "reference": ref[0],
+                                                                          "reference_enrichment": float(ref[2]), "predicted": pred, "surface": nm}))
         # ---- readout consistency (float only; exact relation is the regenerated edl_sigma expression)
         # ---- mass action + activity scale for every species of this surface
         for s, sc, z in mine:
@@ -595,7 +628,7 @@ def validate_translation(ctx, leaves, samples):
     bad = []
     n = 0
     for st, meta in samples:
-        if meta["model"] not in ("ddl", "ccm"):
+        if meta["model"] not in ("ddl", "ccm") or meta.get("related"):
             continue
         for sf in meta["surfaces"]:
             e = st["edl"][sf["name"]]
@@ -732,8 +765,12 @@ def run(ctx):
         c = make_case(ctx.rng, k)
         c["id"] = "c%04d" % k
         cases.append(c)
-    res = vlib.run_inputs([dict(id=c["id"], db=c["db"], text=c["text"]) for c in cases], timeout_each=60, workers=6)
+    import time
+    t0 = time.time()
+    res = vlib.run_inputs([dict(id=c["id"], db=c["db"], text=c["text"]) for c in cases], timeout_each=40, workers=6)
+    t1 = time.time()
     nfail, samples = evaluate(ctx, cases, res)
+    ctx.extra["stage_seconds"] = {"coq_stage": round(t0 - ctx.t0, 1), "phreeqc_runs": round(t1 - t0, 1), "verified_checkers": round(time.time() - t1, 1)}
     if leaves:
         validate_translation(ctx, leaves, samples)
     ctx.rule = ("random surfaces: Hfo (weak+strong sites) of phreeqc.dat / wateq4f.dat or user-defined site types (2-pK, cation, anion, "
